@@ -3,6 +3,7 @@ package vsim
 import (
 	"errors"
 	"fmt"
+	"github.com/gammazero/nexus/v3/router"
 	"io"
 	"net"
 	"os"
@@ -492,15 +493,45 @@ func (w *World) NewWSSess(c *Ctx, name string, realm wamp.URI, sz serialize.Seri
 	s := &Sess{W: w, Idx: len(w.Sess), Name: name, Realm: realm, Local: false, QSize: qsize, ctl: make(chan int), Dead: make(chan struct{}), closeReq: make(chan struct{}), Hello: hello}
 	s.WSC, s.WSS = cw, sw
 	w.Sess = append(w.Sess, s)
-	ser, pt := serializerOf(sz)
 	simrt.Go("attach:"+name, func() {
-		peer := transport.NewWebsocketPeer(sw, ser, pt, w.Log, keepAlive, qsize)
-		s.Rtr = peer
-		s.AttErr = w.R.AttachClient(peer, nil)
+		// the websocket server's own per-connection code (its protocol table with one
+		// serializer instance per sub-protocol shared by all connections, its settings);
+		// the router it attaches to is a tap that tells the harness which peer it made
+		srv := w.wsServer()
+		srv.OutQueueSize, srv.KeepAlive = qsize, keepAlive
+		srv.VerifHandleWebsocket(sw, wamp.Dict{attachTapKey: s})
 		s.attDone = true
 	})
 	ser2, pt2 := serializerOf(sz)
 	s.Cli = transport.NewWebsocketPeer(cw, ser2, pt2, w.Log, 0, 0)
 	s.selfAttached = true
 	return s
+}
+
+// attachTap is the Router handed to the real WebsocketServer: it notes the
+// peer the server created for a connection and passes the attach on.
+type attachTap struct {
+	router.Router
+}
+
+const attachTapKey = "vsim.sess"
+
+func (t attachTap) AttachClient(p wamp.Peer, details wamp.Dict) error {
+	var s *Sess
+	if details != nil {
+		s, _ = details[attachTapKey].(*Sess)
+	}
+	if s == nil {
+		return t.Router.AttachClient(p, details)
+	}
+	s.Rtr = p
+	s.AttErr = t.Router.AttachClient(p, nil)
+	return s.AttErr
+}
+
+func (w *World) wsServer() *router.WebsocketServer {
+	if w.wss == nil {
+		w.wss = router.NewWebsocketServer(attachTap{w.R})
+	}
+	return w.wss
 }
